@@ -800,7 +800,139 @@ func damage(g *Gen, doc []byte, tags *[]string) []byte {
 	return append(d, '!')
 }
 
+// ---------------------------------------------------------------- interface{} destinations
+
+var anyDests = []string{"any", "any", "(map str any)", "(sl any)", "(ptr any)", "(arr 2 any)", "(map str (sl any))", "(sl (map str any))",
+	"(st (f A - any) (f B - (map str any)) (f C - int) (f D - (sl any)))", "(st (f X - str) (f A 612c6f6d6974656d707479 any))", "(map i16 any)"}
+
+var anyNums = []string{"0", "1", "-1", "7", "12", "255", "65536", "2147483648", "9223372036854775807", "-9223372036854775808", "9223372036854775808",
+	"18446744073709551615", "123456789012345678901234567890", "0.5", "1.5", "-2.25", "1e2", "1E-2", "3.14159", "1e21", "1e-7", "100", "0.1", "6.02e23"}
+
+var anyStrs = []string{`""`, `"a"`, `"x"`, `"hello"`, `"12"`, `"A B"`, `"é中😀"`, `"q\"q"`, `"back\\slash"`, `"line\nbreak"`, `"\u00e9"`, `"\ud83d\ude00"`, `"<&>"`, `"0123456789abcdef0123456789abcdef"`}
+
+// anyDoc builds a document with about `budget` scalars: numbers, strings (some empty, some escaped), literals,
+// nested arrays and objects; `flat` keeps it one level deep
+func anyDoc(g *Gen, budget *int, depth int) *jn {
+	if *budget <= 0 || depth <= 0 || g.R.Intn(3) != 0 {
+		*budget--
+		switch k := g.R.Intn(10); {
+		case k < 5:
+			return jlit('0', anyNums[g.R.Intn(len(anyNums))])
+		case k < 8:
+			return jlit('s', anyStrs[g.R.Intn(len(anyStrs))])
+		case k == 8:
+			return jlit('b', []string{"true", "false"}[g.R.Intn(2)])
+		default:
+			return jlit('n', "null")
+		}
+	}
+	n := 1 + g.R.Intn(6)
+	if g.R.Intn(2) == 0 {
+		a := &jn{kind: 'a'}
+		for i := 0; i < n; i++ {
+			a.elems = append(a.elems, anyDoc(g, budget, depth-1))
+		}
+		return a
+	}
+	o := &jn{kind: 'o'}
+	for i := 0; i < n; i++ {
+		o.keys = append(o.keys, `"k`+strconv.Itoa(g.R.Intn(12))+`"`)
+		o.elems = append(o.elems, anyDoc(g, budget, depth-1))
+	}
+	return o
+}
+
+// anyContainer: a top-level array or object holding documents until `scalars` scalars are spent
+func anyContainer(g *Gen, obj bool, scalars int) *jn {
+	budget := scalars
+	root := &jn{kind: 'a'}
+	if obj {
+		root.kind = 'o'
+	}
+	for i := 0; budget > 0; i++ {
+		if obj {
+			root.keys = append(root.keys, `"m`+strconv.Itoa(i)+`"`)
+		}
+		root.elems = append(root.elems, anyDoc(g, &budget, 3))
+	}
+	return root
+}
+
+func anyConfigs() (cs []uint64, names []string) {
+	std, _, _ := bindConfigs()
+	for _, base := range []struct {
+		c uint64
+		n string
+	}{{0, "default"}, {std, "std"}, {cfgBit("CopyString"), "copystring"}, {cfgBit("ValidateString"), "validatestring"}} {
+		for _, extra := range []string{"", "UseNumber", "UseNumber", "UseInt64"} {
+			c, n := base.c, base.n
+			if extra != "" {
+				c |= cfgBit(extra)
+				n += "+" + extra
+			}
+			cs = append(cs, c)
+			names = append(names, n)
+		}
+	}
+	return
+}
+
 func init() {
+	// interface{} destinations under the number options, documents with 1 .. 1000 scalars (the sizes of the
+	// value pools of the generic decoders)
+	registerGen("bind.any", func(g *Gen) {
+		cs, names := anyConfigs()
+		sizes := []int{1, 1, 3, 3, 17, 17, 100, 100, 1000}
+		for i := 0; i < g.N; i++ {
+			k := g.R.Intn(len(cs))
+			dest := anyDests[g.R.Intn(len(anyDests))]
+			size := sizes[g.R.Intn(len(sizes))]
+			tags := []string{"cfg:" + names[k], "anydest", "scalars:" + strconv.Itoa(size)}
+			var root *jn
+			switch {
+			case strings.HasPrefix(dest, "(sl") || strings.HasPrefix(dest, "(arr"):
+				root = anyContainer(g, false, size)
+			case strings.HasPrefix(dest, "(map str") || strings.HasPrefix(dest, "(map i16"):
+				root = anyContainer(g, true, size)
+				if strings.HasPrefix(dest, "(map i16") {
+					for j := range root.keys {
+						root.keys[j] = `"` + strconv.Itoa(j-3) + `"`
+					}
+				}
+			case strings.HasPrefix(dest, "(st"):
+				root = &jn{kind: 'o'}
+				for _, key := range []string{`"A"`, `"B"`, `"C"`, `"D"`, `"X"`, `"a"`} {
+					if g.R.Intn(3) != 0 {
+						var v *jn
+						switch key {
+						case `"B"`:
+							v = anyContainer(g, true, 1+size/3)
+						case `"D"`:
+							v = anyContainer(g, false, 1+size/3)
+						case `"C"`:
+							v = jlit('0', "7")
+						case `"X"`:
+							v = jlit('s', anyStrs[g.R.Intn(len(anyStrs))])
+						default:
+							v = anyContainer(g, g.R.Intn(2) == 0, 1+size/3)
+						}
+						root.keys = append(root.keys, key)
+						root.elems = append(root.elems, v)
+					}
+				}
+			default:
+				switch g.R.Intn(4) {
+				case 0:
+					b := 1
+					root = anyDoc(g, &b, 0)
+				default:
+					root = anyContainer(g, g.R.Intn(2) == 0, size)
+				}
+			}
+			doc := render(g, root, &tags)
+			g.Emit("bind", strconv.FormatUint(cs[k], 10), dest, hexArg(doc), tagStr(tags))
+		}
+	})
 	registerGen("bind.valid", func(g *Gen) {
 		for i := 0; i < g.N; i++ {
 			cfg, tn, root, tags := validCase(g)
